@@ -12,6 +12,7 @@ import Qv.Drv.C13
 import Qv.Drv.C06
 import Qv.Drv.C04
 import Qv.Drv.C20
+import Qv.Drv.C18
 /-! Line protocol: `<op> <json>` per line in, one JSON document per line out. -/
 open Lean
 
@@ -39,7 +40,10 @@ def handlers : List (String × (Json → Except String Json)) := [
   ("C20.spin", Qv.Drv.C20.spinJ),
   ("C20.gates", Qv.Drv.C20.gatesJ),
   ("C20.hadamard", Qv.Drv.C20.hadamardJ),
-  ("C20.basis", Qv.Drv.C20.basisJ)
+  ("C20.basis", Qv.Drv.C20.basisJ),
+  ("C18.scatter", Qv.Drv.C18.scatterJ),
+  ("C18.scatter_mat", Qv.Drv.C18.scatterMatJ),
+  ("C18.constraint", Qv.Drv.C18.constraintJ)
 ]
 
 def handle (line : String) : String :=
